@@ -15,12 +15,19 @@ def jobs(tier):
                               "h_lu_pivot_rule": "all 256 2x2 matrices with entries from {1,2,3,100} (exhaustive; a symbolic version does not finish)",
                               "h_lu_zero_pivot": "all finite 2x2 matrices with a zero first column or a zero first row"}[e],
                        timeout=200, cbmc_flags=["--no-leak"]))
+    import C20
+    for t in (("VNACAL_T8", "VNACAL_U8") if tier == "quick" else ("VNACAL_T8", "VNACAL_U8", "VNACAL_TE10", "VNACAL_UE10", "VNACAL_T16", "VNACAL_U16")):
+        J.append(V.Job("ab_reduction.%s" % t[7:], "vnacal/c19_ab.c", "h_ab_reduction", C20.BASE, defines=C20.CUT + ["-DCAL_TYPE=%s" % t],
+                       unwind=14, union_struct=True, kind="bounded", canary=(t == "VNACAL_T8"),
+                       functions=["_vnacal_new_add_common (a/b -> m reduction and its singularity test)", "vnacal_new_add_through"],
+                       bound="%s 2x2, 2 frequencies, through given in a/b form; a, b values and the kernel's determinant per frequency symbolic (full double domain)" % t,
+                       timeout=300))
     return J
 
 
 ASSUME = [
     "double complex compiled as double (shim): magnitudes are |x| of real values",
-    "NOT covered: backward stability / residual size, QR orthogonality and least-squares minimality, n > 2, 'astronomically large output' of the n-port conversions, that every call site tests the determinant (read by hand: apply, solve_simple, solve_auto, add_common do)",
+    "NOT covered: backward stability / residual size, QR orthogonality and least-squares minimality, n > 2, 'astronomically large output' of the n-port conversions, that every call site tests the determinant: decided for the a/b reduction of vnacal_new_add_* (ab_reduction, kernel by assumed contract with any determinant) and for vnacal_apply_m (C01 apply_frame); solve_simple / solve_auto by reading only",
 ]
 TRUSTED = ["CBMC 6.11 IEEE-754 encoding", "CBMC models of ldexp / isnormal"]
 
